@@ -304,6 +304,15 @@ func RunCase(d Drawer, cfg CaseConfig) (res CaseResult) {
 					s.Panics = append(s.Panics, pe)
 					s.tracef("PANIC (unguarded): %s", pe.Msg)
 					props := append([]string{"C14"}, panicProps(pe.Msg)...)
+					if s.Stats.has("snap.installed") {
+						switch panicClass(pe.Msg) {
+						case "slice_out_of_bound", "storage_unavailable", "unexpected_log_error", "storage_append_gap", "unapplied_entries_error":
+							// the log cannot be read any more on a node group in
+							// which a snapshot was installed: not "exactly the
+							// snapshot as the new log base"
+							props = append(props, "C09")
+						}
+					}
 					for _, p := range props {
 						if mon.Owned[p] {
 							res.Violation = &Violation{Prop: p, Monitor: "no_panic", Sig: "c14.panic:" + panicClass(pe.Msg), Msg: "raft panicked: " + pe.Msg, Step: s.Step}
@@ -772,7 +781,15 @@ func (s *Sim) drawConfChange() *pb.ConfChangeV2 {
 	single := func(t pb.ConfChangeType, id uint64) *pb.ConfChangeSingle {
 		return &pb.ConfChangeSingle{Type: t.Enum(), NodeId: new(id)}
 	}
-	anyID := func() uint64 { return s.IDs[d.Int(0, len(s.IDs)-1, "ccid")] }
+	// id 0 is the documented "ignore this single change" marker (etcd zeroes
+	// the NodeId of changes it decides not to apply)
+	anyID := func() uint64 {
+		k := d.Int(0, len(s.IDs)+1, "ccid")
+		if k >= len(s.IDs) {
+			return 0
+		}
+		return s.IDs[k]
+	}
 	var one func() *pb.ConfChangeSingle
 	one = func() *pb.ConfChangeSingle {
 		switch d.Int(0, 7, "cckind") {
@@ -834,6 +851,13 @@ func (s *Sim) drawConfChange() *pb.ConfChangeV2 {
 		default:
 			for i := 0; i < k; i++ {
 				cc.Changes = append(cc.Changes, one())
+			}
+			if d.Int(0, 3, "cczero") == 0 {
+				// an ignored (zero id) change in front of real ones
+				z := single(pick(d, "ccztype", pb.ConfChangeAddNode, pb.ConfChangeRemoveNode, pb.ConfChangeAddLearnerNode, pb.ConfChangeUpdateNode), 0)
+				at := d.Int(0, len(cc.Changes)-1, "cczat")
+				cc.Changes = append(cc.Changes[:at:at], append([]*pb.ConfChangeSingle{z}, cc.Changes[at:]...)...)
+				s.Stats.inc("conf.zero_id_before_real_change")
 			}
 		}
 		cc.Transition = pick(d, "cctr", pb.ConfChangeTransitionAuto, pb.ConfChangeTransitionJointImplicit, pb.ConfChangeTransitionJointExplicit).Enum()
@@ -1242,6 +1266,15 @@ func RunScript(w WorldOpts, owned []string, exclude map[string]bool, script func
 				res.Excluded = v.reason == "excluded_known_finding"
 				res.Aborted = !res.Excluded
 			default:
+				// a panic raised by raft itself in a scripted history is a
+				// failure of the check the script belongs to
+				stack := string(debug.Stack())
+				if _, isRaft := r.(RaftPanic); (isRaft || panicInRaft(stack)) && len(owned) > 0 {
+					msg := fmt.Sprint(r)
+					res.Violation = &Violation{Prop: owned[0], Monitor: "no_panic", Sig: "c14.panic:" + panicClass(msg), Msg: "raft panicked: " + msg, Step: s.Step}
+					s.tracef("%s", res.Violation.Error())
+					return
+				}
 				panic(r)
 			}
 		}
